@@ -189,7 +189,8 @@ func (w *World) TlaLines(forced bool, label string) []string {
 			o := m{"ev": "probe", "note": e.Note, "quiescent": e.Note == "quiescent",
 				"cready":  slices.Contains(e.States, ssC.Ready),
 				"sready":  slices.Contains(e.Tracked, ssS.Ready),
-				"blocked": e.Call, "syncopen": e.Open, "names": nz(e.Names)}
+				"blocked": e.Call, "syncopen": e.Open, "names": nz(e.Names),
+				"mact": nz(e.MAct), "sact": nz(e.SAct)}
 			snapFields(o, "s", &src)
 			snapFields(o, "m", e.To)
 			put(o)
